@@ -9,7 +9,7 @@
    [roundtrip_tree_partial]: read_back print_tree t = Ok (ITerm t).
    [node_ok_*]: the local condition follows from typing for the operators of Core, Int/Real
    arithmetic, ITE, Equals, uninterpreted functions and the non-indexed bit-vector operators. *)
-From Coq Require Import List ZArith Bool String Ascii Lia.
+From Coq Require Import List ZArith Bool String Ascii Lia DecimalString.
 From PySMT.core Require Import Syntax SmtStd.
 From PySMT.models Require Import TypeChecker Oracles Ctors SmtLex SmtParser SmtPrinter RoundTrip.
 From PySMT.proofs Require Import Reader_proofs Numeral_proofs.
@@ -227,92 +227,201 @@ Proof. destruct o; try discriminate; cbn [idx_of]; intros H; inversion H; subst;
 From PySMT.proofs Require Import SmtLex_proofs.
 Open Scope list_scope.
 
-Lemma rt_simple D : forall t, rt D t -> simpleb (print_tree t) = true.
+(* ------------------------------------------------------------------------- reserved names
+   The names the DAG printer gives to its lets (.def_k) are never cached as literals: with [inv],
+   the state invariant says that a reserved name has no binding but the one D gives it, so that a
+   let over it finds an empty stack and leaves an empty stack behind. *)
+Definition stack_of (n : string) (s : pstate) : list item :=
+  match alookup n (keys s) with Some l => l | None => [] end.
+Definition reserved (n : string) : Prop := exists k, n = def_name k.
+Definition invR (D : list (string * item)) (s : pstate) : Prop :=
+  inv D s /\
+  forall n, reserved n -> stack_of n s = match alookup n D with Some it => [it] | None => [] end.
+
+Lemma reserved_first n : reserved n -> exists r, n = String "." r.
+Proof. intros [k ->]. eexists. reflexivity. Qed.
+Lemma dec_not_reserved n : ~ reserved (dec_string n).
 Proof.
-  induction t as [o args IH] using term_ind'. intros Hrt. apply rt_unfold in Hrt. destruct Hrt as [Hn Hargs].
-  unfold node_ok in Hn. destruct (is_leaf_op o) eqn:Hleaf.
-  - destruct Hn as [-> Hl]. destruct o; try discriminate Hleaf; cbn in Hl; try contradiction.
-    + destruct Hl as (Hq & Hp & _). change (print_tree (T (OSymbol n t) [])) with (Atom (quote n)).
+  intros H. apply reserved_first in H. destruct H as [r H].
+  unfold dec_string, NilZero.string_of_uint in H. destruct (N.to_uint (Z.to_N n)); discriminate H.
+Qed.
+Lemma dec0_not_reserved n : ~ reserved (dec_string n ++ ".0").
+Proof.
+  intros H. apply reserved_first in H. destruct H as [r H].
+  unfold dec_string, NilZero.string_of_uint in H. destruct (N.to_uint (Z.to_N n)); discriminate H.
+Qed.
+Lemma bv_not_reserved w v : ~ reserved (bv_string w v).
+Proof. intros H. apply reserved_first in H. destruct H as [r H]. discriminate H. Qed.
+
+Lemma stack_of_bind n k v s :
+  stack_of n (cache_bind k v s) = if String.eqb n k then v :: stack_of k s else stack_of n s.
+Proof.
+  unfold stack_of, cache_bind. cbn [keys set_keys]. destruct (n =? k) eqn:E.
+  - apply String.eqb_eq in E. subst n. now rewrite alookup_aset_same.
+  - rewrite alookup_aset_other; [reflexivity|]. intros ->. now rewrite String.eqb_refl in E.
+Qed.
+Lemma cache_get_stack s k : defs s = [] -> cache_get k s = hd_error (stack_of k s).
+Proof.
+  intros H. rewrite cache_get_keys by exact H. unfold stack_of.
+  destruct (alookup k (keys s)) as [[|x l]|]; reflexivity.
+Qed.
+Lemma cache_unbind_stack k s x l : stack_of k s = x :: l ->
+  exists s', cache_unbind k s = ROk tt s' /\ defs s' = defs s /\ logic_ia s' = logic_ia s /\ toks s' = toks s /\
+             forall n, stack_of n s' = if String.eqb n k then l else stack_of n s.
+Proof.
+  intros H. unfold cache_unbind. unfold stack_of in H.
+  destruct (alookup k (keys s)) as [[|y m]|] eqn:E; try discriminate H. inversion H; subst y m.
+  eexists. split; [reflexivity|]. repeat split. intros n. unfold stack_of. cbn [keys set_keys].
+  destruct (n =? k) eqn:En.
+  - apply String.eqb_eq in En. subst n. now rewrite alookup_aset_same.
+  - rewrite alookup_aset_other; [reflexivity|]. intros ->. now rewrite String.eqb_refl in En.
+Qed.
+
+Lemma atom_stack tk s i s' : atom tk s = ROk i s' -> forall n, n <> tk -> stack_of n s' = stack_of n s.
+Proof.
+  unfold atom. destruct (cache_get tk s).
+  - intros H; inversion H; reflexivity.
+  - destruct (literal tk s) as [t s1|e s1] eqn:E; cbn [bind]; [|discriminate].
+    apply literal_same in E. subst s1. intros H; inversion H; subst. intros n Hn.
+    rewrite stack_of_bind. destruct (n =? tk) eqn:En; [apply String.eqb_eq in En; congruence | reflexivity].
+Qed.
+
+Lemma atom_declaredR D n it s : invR D s -> alookup n D = Some it -> atom n s = ROk it s.
+Proof. intros [Hi _]. now apply atom_declared. Qed.
+Lemma atom_litR D tk c s : invR D s -> alookup tk D = None -> lit_reads tk c -> ~ reserved tk ->
+  exists s', atom tk s = ROk (ITerm c) s' /\ invR D s'.
+Proof.
+  intros [Hi Hr] HD Hl Hnr. destruct (atom_lit D tk c s Hi HD Hl) as (s' & Ea & Hi').
+  exists s'. split; [exact Ea|]. split; [exact Hi'|]. intros n Hn.
+  rewrite (atom_stack _ _ _ _ Ea n); [now apply Hr|]. intros ->. exact (Hnr Hn).
+Qed.
+
+(* ------------------------------------------------------------------------- the text of a node *)
+Lemma term_sexp_inner o args h xs :
+  plain_op o = true -> is_leaf_op o = false -> head_of (T o args) = Some h ->
+  term_sexp (T o args) xs = SList (Atom h :: xs).
+Proof.
+  intros Hp Hl Hh. destruct o; try discriminate Hp; try discriminate Hl; cbn in Hh;
+    try discriminate Hh; inversion Hh; subst; reflexivity.
+Qed.
+Lemma term_sexp_indexed o name idx f args xs :
+  idx_of o = Some (name, idx, f) ->
+  term_sexp (T o args) xs = SList (SList (Atom "_" :: Atom name :: map (fun z => Atom (py_int_str z)) idx) :: xs).
+Proof. destruct o; try discriminate; cbn [idx_of]; intros H; inversion H; subst; reflexivity. Qed.
+Lemma print_tree_plain o args : plain_op o = true ->
+  print_tree (T o args) = term_sexp (T o args) (map print_tree args).
+Proof. destruct o; try discriminate; reflexivity. Qed.
+
+Lemma node_ok_plain D o args : node_ok D o args -> plain_op o = true.
+Proof.
+  unfold node_ok. destruct (is_leaf_op o) eqn:Hl.
+  - destruct o; try discriminate Hl; reflexivity.
+  - intros [(Hp & _) | (name & idx & f & x & Hi & _)]; [exact Hp|]. destruct o; try discriminate Hi; reflexivity.
+Qed.
+
+(* the text of a node whose argument texts are in the fragment is in the fragment *)
+Lemma node_simple D o args xs : node_ok D o args ->
+  Forall (fun x => simpleb x = true) xs -> List.length xs = List.length args ->
+  simpleb (term_sexp (T o args) xs) = true.
+Proof.
+  intros Hn Hxs Hlen. unfold node_ok in Hn. destruct (is_leaf_op o) eqn:Hleaf.
+  - destruct Hn as [-> Hl]. destruct xs; [|discriminate Hlen].
+    destruct o; try discriminate Hleaf; cbn in Hl; try contradiction.
+    + destruct Hl as (Hq & Hp & _). change (term_sexp (T (OSymbol n t) []) []) with (Atom (quote n)).
       rewrite Hq. cbn. now rewrite Hp.
     + (* Real constant *)
       unfold real_leaf_ok in Hl. cbv zeta in Hl. destruct Hl as (Hpa & _ & _ & Hdiv & _ & _).
-      change (print_tree (T (ORealC num den) [])) with (real_const num den). unfold real_const.
+      change (term_sexp (T (ORealC num den) []) []) with (real_const num den). unfold real_const.
       destruct (den =? 1)%Z eqn:Hd; destruct (num <? 0)%Z; cbn [simpleb forallb]; rewrite ?Hpa; try reflexivity;
         destruct (Hdiv eq_refl) as (Hpb & _); rewrite Hpb; reflexivity.
     + destruct b; reflexivity.
     + pose proof (numeral_not_paren (Z.abs z) (Z.abs_nonneg z)) as Hp.
-      change (print_tree (T (OIntC z) [])) with (int_const z). unfold int_const.
+      change (term_sexp (T (OIntC z) []) []) with (int_const z). unfold int_const.
       destruct (z <? 0)%Z eqn:Hz.
       * apply Z.ltb_lt in Hz. replace (- z)%Z with (Z.abs z) by lia. cbn. now rewrite Hp.
       * apply Z.ltb_ge in Hz. replace z with (Z.abs z) by lia. cbn. now rewrite Hp.
     + (* bit-vector constant *)
-      change (print_tree (T (OBVC v w) [])) with (Atom (bv_string w v)). reflexivity.
+      change (term_sexp (T (OBVC v w) []) []) with (Atom (bv_string w v)). reflexivity.
   - destruct Hn as [(Hp & _ & h & Hh & Hparen & Hcase) | (name & idx & f & x & Hi & -> & _ & _)].
-    + rewrite (print_inner o args h Hp Hleaf Hh). cbn [simpleb]. rewrite Hparen. cbn [negb andb].
+    + rewrite (term_sexp_inner o args h xs Hp Hleaf Hh). cbn [simpleb]. rewrite Hparen. cbn [negb andb].
       assert (Ha : app_head h = true).
       { unfold app_head. destruct Hcase as [(o' & -> & _) | (n & fty & _ & -> & _)]; reflexivity. }
-      rewrite (app_head_not_quant h Ha), Ha. cbn [andb]. apply forallb_forall. intros y Hy. apply in_map_iff in Hy.
-      destruct Hy as (x & <- & Hx). rewrite Forall_forall in *. apply IH; [exact Hx | now apply Hargs].
-    + rewrite (print_indexed o name idx f x Hi). cbn [simpleb forallb String.eqb Ascii.eqb Bool.eqb andb].
-      rewrite andb_true_r. inversion IH as [|? ? Hx _]; subst. inversion Hargs; subst. now apply Hx.
+      rewrite (app_head_not_let h Ha), (app_head_not_quant h Ha), Ha. cbn [andb]. apply forallb_forall.
+      rewrite Forall_forall in Hxs. exact Hxs.
+    + rewrite (term_sexp_indexed o name idx f [x] xs Hi). cbn [simpleb String.eqb Ascii.eqb Bool.eqb andb].
+      apply forallb_forall. rewrite Forall_forall in Hxs. exact Hxs.
+Qed.
+
+Lemma rt_simple D : forall t, rt D t -> simpleb (print_tree t) = true.
+Proof.
+  induction t as [o args IH] using term_ind'. intros Hrt. apply rt_unfold in Hrt. destruct Hrt as [Hn Hargs].
+  rewrite (print_tree_plain o args (node_ok_plain D o args Hn)).
+  apply (node_simple D o args _ Hn); [|now rewrite map_length].
+  apply Forall_forall. intros y Hy. apply in_map_iff in Hy. destruct Hy as (x & <- & Hx).
+  rewrite Forall_forall in *. apply IH; [exact Hx | now apply Hargs].
 Qed.
 
 (* the tokens left after a successful recursive reading (through the machine lemma) *)
 Lemma elab_toks x s i s' rest : simpleb x = true ->
   elab x s = ROk i s' -> toks s = flatten x ++ rest -> toks s' = rest.
-Proof. intros Hs He Ht. exact (proj2 (machine_simple x Hs 0%nat [] s i s' rest He Ht)). Qed.
+Proof. intros Hs He Ht. exact (proj2 (machine_simple_top x Hs 0%nat s i s' rest He Ht)). Qed.
 
 (* ------------------------------------------------------------------------- the induction *)
-Definition reads_back (D : list (string * item)) (t : term) : Prop :=
-  forall s rest, inv D s -> toks s = flatten (print_tree t) ++ rest ->
-    exists s', elab (print_tree t) s = ROk (ITerm t) s' /\ inv D s' /\ toks s' = rest.
+(* the text x is read as the term t, in every state where D is what the names mean *)
+Definition reads_as (D : list (string * item)) (x : sexp) (t : term) : Prop :=
+  forall s rest, invR D s -> toks s = flatten x ++ rest ->
+    exists s', elab x s = ROk (ITerm t) s' /\ invR D s' /\ toks s' = rest.
+Definition reads_back (D : list (string * item)) (t : term) : Prop := reads_as D (print_tree t) t.
 
-Lemma elab_list_print D args : Forall (reads_back D) args ->
-  forall s rest, inv D s -> toks s = flat_map flatten (map print_tree args) ++ rest ->
-    exists s', elab_list (map print_tree args) s = ROk (map ITerm args) s' /\ inv D s' /\ toks s' = rest.
+Lemma elab_list_reads D xs args : Forall2 (reads_as D) xs args ->
+  forall s rest, invR D s -> toks s = flat_map flatten xs ++ rest ->
+    exists s', elab_list xs s = ROk (map ITerm args) s' /\ invR D s' /\ toks s' = rest.
 Proof.
-  induction 1 as [|x r Hx _ IH]; intros s rest Hi Ht.
+  induction 1 as [|x a xs' args' Hx _ IH]; intros s rest Hi Ht.
   - exists s. split; [reflexivity | split; [exact Hi | exact Ht]].
-  - cbn [map flat_map] in Ht. rewrite <- app_assoc in Ht.
+  - cbn [flat_map] in Ht. rewrite <- app_assoc in Ht.
     destruct (Hx s _ Hi Ht) as (s1 & E1 & I1 & T1). destruct (IH s1 rest I1 T1) as (s2 & E2 & I2 & T2).
     exists s2. split; [|split; [exact I2 | exact T2]]. cbn [map]. unfold elab_list in *. cbn [elab_list_with].
     rewrite E1. cbn [bind]. rewrite E2. reflexivity.
 Qed.
 
-Theorem elab_print D : forall t, rt D t -> reads_back D t.
+(* one node: the texts xs of the arguments are read as the arguments *)
+Theorem node_reads D o args xs : node_ok D o args ->
+  Forall2 (reads_as D) xs args -> Forall (fun x => simpleb x = true) xs ->
+  reads_as D (term_sexp (T o args) xs) (T o args).
 Proof.
-  induction t as [o args IH] using term_ind'. intros Hrt.
-  pose proof (rt_simple D _ Hrt) as Hsim.
-  apply rt_unfold in Hrt. destruct Hrt as [Hn Hargs].
-  assert (Hsub : Forall (reads_back D) args).
-  { rewrite Forall_forall in *. intros x Hx. apply IH; [exact Hx | now apply Hargs]. }
-  clear IH Hargs. unfold node_ok in Hn. intros s rest Hi Ht.
+  intros Hn Hsub Hxs.
+  assert (Hlen : List.length xs = List.length args).
+  { clear - Hsub. induction Hsub; cbn; congruence. }
+  pose proof (node_simple D o args xs Hn Hxs Hlen) as Hsim.
+  unfold node_ok in Hn. intros s rest Hi Ht.
   (* it is enough to exhibit the result and the invariant: the tokens follow *)
-  assert (Hweak : exists s', elab (print_tree (T o args)) s = ROk (ITerm (T o args)) s' /\ inv D s');
+  assert (Hweak : exists s', elab (term_sexp (T o args) xs) s = ROk (ITerm (T o args)) s' /\ invR D s');
     [|destruct Hweak as (s' & He & Hi'); exists s'; split; [exact He | split; [exact Hi' | exact (elab_toks _ _ _ _ _ Hsim He Ht)]]].
   destruct (is_leaf_op o) eqn:Hleaf.
   - (* leaves *)
-    destruct Hn as [-> Hl]. destruct o; try discriminate Hleaf; cbn in Hl; try contradiction.
+    destruct Hn as [-> Hl]. inversion Hsub; subst. clear Hsub Hxs Hlen.
+    destruct o; try discriminate Hleaf; cbn in Hl; try contradiction.
     + (* symbol *)
-      destruct Hl as (Hq & Hp & HD). change (print_tree (T (OSymbol n t) [])) with (Atom (quote n)).
+      destruct Hl as (Hq & Hp & HD). change (term_sexp (T (OSymbol n t) []) []) with (Atom (quote n)).
       rewrite Hq. cbn [elab]. exists (pop1 s). split; [|exact Hi].
-      now rewrite (atom_declared D n _ (pop1 s) Hi HD).
+      now rewrite (atom_declaredR D n _ (pop1 s) Hi HD).
     + (* Real constant: n.0, (/ n.0 d.0), (- ..) *)
       unfold real_leaf_ok in Hl. cbv zeta in Hl. destruct Hl as (Hpa & HDa & Hra & Hdiv & Hneg & Hpos).
-      change (print_tree (T (ORealC num den) [])) with (real_const num den). unfold real_const.
+      change (term_sexp (T (ORealC num den) []) []) with (real_const num den). unfold real_const.
       (* the body: the constant |num| / den *)
-      assert (Hbody : forall st, inv D st ->
+      assert (Hbody : forall st, invR D st ->
                 exists st', elab (if (den =? 1)%Z then Atom (dec_string (Z.abs num) ++ ".0")
                                   else SList [Atom "/"; Atom (dec_string (Z.abs num) ++ ".0"); Atom (dec_string den ++ ".0")]) st
-                            = ROk (ITerm (TRealC (Z.abs num) den)) st' /\ inv D st').
+                            = ROk (ITerm (TRealC (Z.abs num) den)) st' /\ invR D st').
       { intros st Hst. destruct (den =? 1)%Z eqn:Hd.
         - apply Z.eqb_eq in Hd. subst den. cbn [elab].
-          destruct (atom_lit D _ _ (pop1 st) Hst HDa Hra) as (s1 & E1 & I1). exists s1. split; assumption.
+          destruct (atom_litR D _ _ (pop1 st) Hst HDa Hra (dec0_not_reserved _)) as (s1 & E1 & I1). exists s1. split; assumption.
         - destruct (Hdiv eq_refl) as (Hpb & HDb & Hrb & Hop).
           rewrite elab_app by reflexivity. change (elab_head "/" (pop1 (pop1 st))) with (ROk (IOp PDiv) (pop1 (pop1 st))).
           cbn [bind elab_list elab_list_with elab].
-          destruct (atom_lit D _ _ (pop1 (pop1 (pop1 st))) Hst HDa Hra) as (s1 & E1 & I1). rewrite E1. cbn [bind].
-          destruct (atom_lit D _ _ (pop1 s1) I1 HDb Hrb) as (s2 & E2 & I2). rewrite E2. cbn [bind].
+          destruct (atom_litR D _ _ (pop1 (pop1 (pop1 st))) Hst HDa Hra (dec0_not_reserved _)) as (s1 & E1 & I1). rewrite E1. cbn [bind].
+          destruct (atom_litR D _ _ (pop1 s1) I1 HDb Hrb (dec0_not_reserved _)) as (s2 & E2 & I2). rewrite E2. cbn [bind].
           exists (pop1 s2). split; [|exact I2]. cbn [call terms_of]. rewrite Hop. reflexivity. }
       destruct (num <? 0)%Z eqn:Hz.
       * rewrite elab_app by reflexivity. change (elab_head "-" (pop1 (pop1 s))) with (ROk (IOp PMinus) (pop1 (pop1 s))).
@@ -322,46 +431,44 @@ Proof.
       * destruct (Hbody s Hi) as (s1 & E1 & I1). exists s1. split; [|exact I1].
         rewrite E1. now rewrite (Hpos eq_refl).
     + (* Boolean constant *)
-      change (print_tree (T (OBoolC b) [])) with (Atom (if b then "true" else "false")).
+      change (term_sexp (T (OBoolC b) []) []) with (Atom (if b then "true" else "false")).
       cbn [elab]. exists (pop1 s). split; [|exact Hi].
-      now rewrite (atom_declared D _ _ (pop1 s) Hi Hl).
+      now rewrite (atom_declaredR D _ _ (pop1 s) Hi Hl).
     + (* integer constant *)
       rename Hl into HD. pose proof (lit_reads_numeral (Z.abs z) (Z.abs_nonneg z)) as Hr.
-      change (print_tree (T (OIntC z) [])) with (int_const z). unfold int_const.
+      change (term_sexp (T (OIntC z) []) []) with (int_const z). unfold int_const.
       destruct (z <? 0)%Z eqn:Hz.
       * apply Z.ltb_lt in Hz. replace (- z)%Z with (Z.abs z) by lia.
         rewrite elab_app by reflexivity. change (elab_head "-" (pop1 (pop1 s))) with (ROk (IOp PMinus) (pop1 (pop1 s))).
         cbn [bind elab_list elab_list_with elab].
-        destruct (atom_lit D _ _ (pop1 (pop1 (pop1 s))) Hi HD Hr) as (s1 & E1 & I1).
+        destruct (atom_litR D _ _ (pop1 (pop1 (pop1 s))) Hi HD Hr (dec_not_reserved _)) as (s1 & E1 & I1).
         rewrite E1. cbn [bind]. exists (pop1 s1). split; [|exact I1].
         cbn. replace (- Z.abs z)%Z with z by lia. reflexivity.
       * apply Z.ltb_ge in Hz. assert (Ez : Z.abs z = z) by lia. rewrite Ez in *. cbn [elab].
-        destruct (atom_lit D _ _ (pop1 s) Hi HD Hr) as (s1 & E1 & I1).
+        destruct (atom_litR D _ _ (pop1 s) Hi HD Hr (dec_not_reserved _)) as (s1 & E1 & I1).
         exists s1. split; [exact E1 | exact I1].
     + (* bit-vector constant *)
-      destruct Hl as (HD & Hr). change (print_tree (T (OBVC v w) [])) with (Atom (bv_string w v)). cbn [elab].
-      destruct (atom_lit D _ _ (pop1 s) Hi HD Hr) as (s1 & E1 & I1). exists s1. split; assumption.
+      destruct Hl as (HD & Hr). change (term_sexp (T (OBVC v w) []) []) with (Atom (bv_string w v)). cbn [elab].
+      destruct (atom_litR D _ _ (pop1 s) Hi HD Hr (bv_not_reserved _ _)) as (s1 & E1 & I1). exists s1. split; assumption.
   - destruct Hn as [(Hp & _ & h & Hh & Hparen & Hcase) | (name & idx & f & x & Hidx & -> & Htok & Hap)].
     + (* operators and function applications *)
-      rewrite (print_inner o args h Hp Hleaf Hh) in *.
+      rewrite (term_sexp_inner o args h xs Hp Hleaf Hh) in *.
       assert (Happ : app_head h = true).
       { unfold app_head. destruct Hcase as [(o' & -> & _) | (n & fty & _ & -> & _)]; reflexivity. }
       rewrite (elab_app h _ s Happ).
-      cbn [flatten flat_map] in Ht. cbn [app] in Ht.
-      replace ((h :: flat_map flatten (map print_tree args)) ++ [")"])
-        with (h :: flat_map flatten (map print_tree args) ++ [")"]) in Ht by reflexivity.
-      cbn [app] in Ht. rewrite <- app_assoc in Ht. cbn [app] in Ht.
+      rewrite toks_head in Ht.
       pose proof (toks_pop1 _ _ _ (toks_pop1 s _ _ Ht)) as Ht2.
       destruct Hcase as [(o' & Htab & Ha) | (n & fty & -> & Htab & HD & Hf & Hc)].
       * unfold elab_head. rewrite Htab. cbn [bind].
-        destruct (elab_list_print D args Hsub (pop1 (pop1 s)) _ Hi Ht2) as (s2 & E2 & I2 & _). rewrite E2. cbn [bind].
+        destruct (elab_list_reads D xs args Hsub (pop1 (pop1 s)) _ Hi Ht2) as (s2 & E2 & I2 & _). rewrite E2. cbn [bind].
         exists (pop1 s2). split; [|exact I2]. cbn [call]. rewrite terms_of_map, Ha. reflexivity.
-      * unfold elab_head. rewrite Htab. rewrite (atom_declared D h _ (pop1 (pop1 s)) Hi HD). cbn [bind].
-        destruct (elab_list_print D args Hsub (pop1 (pop1 s)) _ Hi Ht2) as (s2 & E2 & I2 & _). rewrite E2. cbn [bind].
+      * unfold elab_head. rewrite Htab. rewrite (atom_declaredR D h _ (pop1 (pop1 s)) Hi HD). cbn [bind].
+        destruct (elab_list_reads D xs args Hsub (pop1 (pop1 s)) _ Hi Ht2) as (s2 & E2 & I2 & _). rewrite E2. cbn [bind].
         exists (pop1 s2). split; [|exact I2]. cbn [call]. rewrite terms_of_map, Hf, Hc. reflexivity.
     + (* indexed bit-vector operators *)
-      rewrite (print_indexed o name idx f x Hidx) in *. rewrite elab_indexed. cbv zeta.
-      assert (Ht' : toks s = "(" :: "(" :: "_" :: name :: map py_int_str idx ++ ")" :: flatten (print_tree x) ++ ")" :: rest).
+      inversion Hsub as [|x' ? ? ? Hx Hnil]; subst. inversion Hnil; subst. clear Hsub Hnil.
+      rewrite (term_sexp_indexed o name idx f [x] [x'] Hidx) in *. rewrite elab_indexed. cbv zeta.
+      assert (Ht' : toks s = "(" :: "(" :: "_" :: name :: map py_int_str idx ++ ")" :: flatten x' ++ ")" :: rest).
       { rewrite Ht. cbn [flatten flat_map app]. rewrite flat_map_concat_map, map_map. cbn [flatten].
         rewrite <- flat_map_concat_map.
         replace (flat_map (fun z => [py_int_str z]) idx) with (map py_int_str idx)
@@ -370,7 +477,7 @@ Proof.
       pose proof (toks_pop1 _ _ _ (toks_pop1 _ _ _ (toks_pop1 s _ _ Ht'))) as Ht3.
       set (s1 := pop1 (pop1 (pop1 s))) in *.
       assert (Hu : exists s2, underscore_item s1 = ROk (IThunkIdx f) s2 /\
-                              toks s2 = ")" :: flatten (print_tree x) ++ ")" :: rest /\ inv D s2).
+                              toks s2 = ")" :: flatten x' ++ ")" :: rest /\ invR D s2).
       { unfold underscore_item.
         destruct o; try discriminate Hidx; cbn [idx_of] in Hidx; inversion Hidx; subst name idx f; clear Hidx;
           cbn [map app] in Ht3.
@@ -411,42 +518,31 @@ Proof.
         rewrite flat_map_concat_map, map_map. cbn [flatten]. rewrite <- flat_map_concat_map.
         replace (flat_map (fun z => [py_int_str z]) idx) with (map py_int_str idx)
           by (clear; induction idx; cbn; congruence).
-        change (name :: map py_int_str idx ++ ")" :: flatten (print_tree x) ++ ")" :: rest)
-          with ((name :: map py_int_str idx) ++ ")" :: flatten (print_tree x) ++ ")" :: rest).
+        change (name :: map py_int_str idx ++ ")" :: flatten x' ++ ")" :: rest)
+          with ((name :: map py_int_str idx) ++ ")" :: flatten x' ++ ")" :: rest).
         change (S (List.length (map py_int_str idx))) with (List.length (name :: map py_int_str idx)).
         rewrite skipn_app_len. apply list_eqs_refl. }
       rewrite Hck. cbn [call bind].
       pose proof (toks_pop1 s2 _ _ T2) as T3.
-      inversion Hsub as [|? ? Hx _]; subst.
       destruct (Hx (pop1 s2) _ I2 T3) as (s4 & E4 & I4 & _).
       unfold elab_list. cbn [elab_list_with]. rewrite E4. cbn [bind].
       exists (pop1 s4). split; [|exact I4]. rewrite Hap. reflexivity.
 Qed.
 
-(* ------------------------------------------------------------------------- from elab to read_back *)
-Lemma costs_le l : Forall (fun x => (cost x <= List.length (flatten x))%nat) l ->
-  (costs l <= List.length (flat_map flatten l))%nat.
+Theorem elab_print D : forall t, rt D t -> reads_back D t.
 Proof.
-  induction 1 as [|y r Hy _ IHr]; [cbn; lia|]. cbn [costs fold_right flat_map]. fold (costs r).
-  rewrite app_length. lia.
-Qed.
-Lemma cost_le : forall x, (cost x <= List.length (flatten x))%nat.
-Proof.
-  induction x as [a|l IH] using sexp_ind'; [cbn; lia|].
-  destruct l as [|[h|hd] rest].
-  - cbn. lia.
-  - inversion IH as [|? ? _ IHr]; subst. pose proof (costs_le rest IHr) as Hc.
-    cbn [cost flatten flat_map List.length]. rewrite !app_length. cbn [List.length].
-    destruct (quant_head h).
-    + destruct rest as [|b0 [|body [|? ?]]]; try lia.
-      inversion IHr as [|? ? _ IH2]; subst. inversion IH2 as [|? ? Hb _]; subst.
-      cbn [flat_map]. rewrite !app_length. cbn [List.length]. lia.
-    + fold (costs rest). lia.
-  - inversion IH as [|? ? Hhd IHr]; subst. pose proof (costs_le rest IHr) as Hc.
-    cbn [cost]. fold (costs rest). cbn [flatten flat_map List.length]. rewrite !app_length.
-    cbn [List.length]. fold (flat_map flatten hd). rewrite !app_length. cbn [List.length]. lia.
+  induction t as [o args IH] using term_ind'. intros Hrt.
+  apply rt_unfold in Hrt. destruct Hrt as [Hn Hargs]. unfold reads_back.
+  rewrite (print_tree_plain o args (node_ok_plain D o args Hn)).
+  apply (node_reads D o args _ Hn).
+  - clear Hn. induction args as [|a r IHr]; cbn [map]; [constructor|].
+    inversion IH as [|? ? Ha IHr']; subst. inversion Hargs as [|? ? Hra Hrr]; subst.
+    constructor; [exact (Ha Hra) | exact (IHr IHr' Hrr)].
+  - apply Forall_forall. intros y Hy. apply in_map_iff in Hy. destruct Hy as (x & <- & Hx).
+    rewrite Forall_forall in Hargs. exact (rt_simple D x (Hargs x Hx)).
 Qed.
 
+(* ------------------------------------------------------------------------- from elab to read_back *)
 Definition tok_plainb (t : string) : bool :=
   String.eqb t "(" || String.eqb t ")" ||
   (negb (String.eqb t "") && forallb plain_char (list_ascii_of_string t)).
@@ -467,7 +563,7 @@ Lemma alookup_map_hd n (L : list (string * list item)) :
   alookup n (map (fun kv => (fst kv, hd IPartial (snd kv))) L) = option_map (hd IPartial) (alookup n L).
 Proof. induction L as [|[k v] r IH]; cbn; [reflexivity|]. destruct (n =? k); [reflexivity | exact IH]. Qed.
 
-Lemma inv_state_of t tk : inv (D_of t) (state_of t tk).
+Lemma state_of_single t tk : forall n l, alookup n (keys (state_of t tk)) = Some l -> exists x, l = [x].
 Proof.
   assert (HS : Forall (fun kv : string * list item => exists x, snd kv = [x]) (keys (state_of t tk))).
   { cbn [keys state_of]. repeat rewrite Forall_app. repeat split.
@@ -475,9 +571,13 @@ Proof.
     - apply Forall_forall. intros kv Hin. apply in_flat_map in Hin. destruct Hin as (ty & _ & Hin).
       destruct ty; cbn in Hin; try contradiction. destruct targs; cbn in Hin; destruct Hin as [<-|[]]; cbn; eauto.
     - repeat constructor; cbn; eauto. }
-  assert (Hsingle : forall n l, alookup n (keys (state_of t tk)) = Some l -> exists x, l = [x]).
-  { intros n l. induction HS as [|[k v] r Hk _ IH]; cbn; [discriminate|].
-    destruct (n =? k); [intros E; inversion E; subst; exact Hk | exact IH]. }
+  intros n l. induction HS as [|[k v] r Hk _ IH]; cbn; [discriminate|].
+  destruct (n =? k); [intros E; inversion E; subst; exact Hk | exact IH].
+Qed.
+
+Lemma inv_state_of t tk : inv (D_of t) (state_of t tk).
+Proof.
+  pose proof (state_of_single t tk) as Hsingle.
   repeat split.
   - intros n it Hn. unfold D_of in Hn. rewrite alookup_map_hd in Hn.
     change (keys (state_of t ([], LexEof))) with (keys (state_of t tk)) in Hn.
@@ -487,6 +587,13 @@ Proof.
   - intros k v Hk. left. rewrite cache_get_keys in Hk by reflexivity. unfold D_of. rewrite alookup_map_hd.
     change (keys (state_of t ([], LexEof))) with (keys (state_of t tk)).
     destruct (alookup k (keys (state_of t tk))) as [[|x l]|]; try discriminate. now inversion Hk.
+Qed.
+Lemma invR_state_of t tk : invR (D_of t) (state_of t tk).
+Proof.
+  split; [apply inv_state_of|]. intros n _. unfold stack_of, D_of. rewrite alookup_map_hd.
+  change (keys (state_of t ([], LexEof))) with (keys (state_of t tk)).
+  destruct (alookup n (keys (state_of t tk))) as [l|] eqn:E; [|reflexivity].
+  destruct (state_of_single t tk _ _ E) as [x ->]. reflexivity.
 Qed.
 
 (* FULL STATEMENT (roundtrip_tree): for every well-typed t with printable names,
@@ -502,14 +609,14 @@ Proof.
     apply Forall_forall. intros tk Hin. apply tok_plainb_ok. now apply Hpl. }
   rewrite Hlex. set (x := print_tree t) in *. set (s0 := state_of t (flatten x, LexEof)).
   assert (Ht0 : toks s0 = flatten x ++ []) by (unfold s0; cbn [toks state_of fst]; now rewrite app_nil_r).
-  destruct (elab_print (D_of t) t Hrt s0 [] (inv_state_of t _) Ht0) as (s' & He & _). fold x in He.
+  destruct (elab_print (D_of t) t Hrt s0 [] (invR_state_of t _) Ht0) as (s' & He & _). fold x in He.
   unfold get_expression.
   assert (Hfuel : exists k, expr_fuel s0 = (cost x + k)%nat).
   { exists (expr_fuel s0 - cost x)%nat. pose proof (cost_le x).
     assert (List.length (flatten x) <= expr_fuel s0)%nat; [|lia].
     unfold expr_fuel, fuel_of, s0. cbn [toks state_of fst]. lia. }
   destruct Hfuel as [k ->].
-  destruct (machine_simple x (rt_simple _ t Hrt) k [] s0 (ITerm t) s' [] He) as [G _].
+  destruct (machine_simple_top x (rt_simple _ t Hrt) k s0 (ITerm t) s' [] He) as [G _].
   { unfold s0. cbn [toks state_of fst]. now rewrite app_nil_r. }
   rewrite G. reflexivity.
 Qed.
